@@ -262,18 +262,25 @@ inline void run_case(const std::string &serialised, F body) {
 template <class F>
 inline int replay_main(F run_serialised) {
     Ctx &c = ctx();
-    std::string s = read_file(c.replay_file);
-    if(s.empty()) { fprintf(stderr, "replay: cannot read %s\n", c.replay_file.c_str()); return 2; }
-    arm_watchdog(c.cpu_budget_s * 3);
-    try {
-        run_serialised(s);
-    } catch(const Fail &f) {
-        printf("REPLAY-FAIL %s\n", f.msg.c_str());
-        fflush(stdout);
-        return 10;
+    // a comma-separated list replays several cases in ONE process, in order (exposes state leaking between cases)
+    std::vector<std::string> files; { std::string cur; for(char ch : c.replay_file) { if(ch == ',') { files.push_back(cur); cur.clear(); } else cur += ch; } files.push_back(cur); }
+    int rc = 0;
+    for(const std::string &fpath : files) {
+        std::string s = read_file(fpath);
+        if(s.empty()) { fprintf(stderr, "replay: cannot read %s\n", fpath.c_str()); return 2; }
+        arm_watchdog(c.cpu_budget_s * 3);
+        try {
+            run_serialised(s);
+        } catch(const Fail &f) {
+            printf("REPLAY-FAIL %s\n", f.msg.c_str());
+            fflush(stdout);
+            rc = 10;
+            continue;
+        }
+        if(files.size() > 1) printf("replay %s: ok\n", fpath.c_str());
     }
-    printf("REPLAY-OK\n");
-    return 0;
+    if(rc == 0) printf("REPLAY-OK\n");
+    return rc;
 }
 
 inline int finish() {
